@@ -2779,6 +2779,13 @@ event_add_nolock_(struct event *ev, const struct timeval *tv,
 			notify = 1;
 			res = 0;
 		}
+		/* A fresh registration without a timeout must not inherit the
+		 * interval of an earlier one: the persist closure would arm
+		 * it again the first time the event fires. */
+		if (res != -1 && tv == NULL &&
+		    ev->ev_closure == EV_CLOSURE_EVENT_PERSIST &&
+		    !(ev->ev_flags & EVLIST_TIMEOUT))
+			evutil_timerclear(&ev->ev_io_timeout);
 	}
 
 	/*
